@@ -31,6 +31,9 @@ type C03Scenario struct {
 	TMsg   int    `json:"tmsg,omitempty"`
 	TClass string `json:"tclass,omitempty"`
 	TFrac  int    `json:"tfrac,omitempty"`
+	// FaultFree: the control group — nothing is injected (the server may be slow, but answers
+	// every command well within the timeout): every call succeeds, every message is delivered.
+	FaultFree bool `json:"faultFree,omitempty"`
 }
 
 type c03 struct{}
@@ -93,6 +96,12 @@ func (p *c03) Gen(seed uint64, i int, tier string) (any, bool) {
 	useProducer, useTransport, useReplies := r.Chance(1, 2), r.Chance(1, 3), r.Chance(1, 2)
 	if i%16 == 0 {
 		useProducer, useTransport, useReplies = false, false, false // fault-free control
+		sc.FaultFree = true
+		if r.Chance(1, 2) {
+			// a healthy but slow server: every reply takes a twelfth of the client's timeout, so
+			// each step is well inside it while a batch as a whole is not
+			sc.Server.ReplyDelayNs = int64(sc.Client.TimeoutMs) * int64(time.Millisecond) / 12
+		}
 	}
 	if useProducer {
 		for k, tries := 0, 0; k < 1+r.Intn(2) && tries < 10; tries++ {
@@ -442,6 +451,21 @@ func (p *c03) Exec(t *testing.T, scAny any) Outcome {
 					break
 				}
 			}
+		}
+	}
+	if sc.FaultFree {
+		for _, call := range append(append([]*CallRec(nil), run.SendCalls...), run.DialCall) {
+			if call != nil && call.Returned && call.Err != nil {
+				out.violate("C03:fault-free-run-failed:"+call.Name, "nothing was injected (server reply delay %v, client timeout %v), yet %s returned %v", time.Duration(sc.Server.ReplyDelayNs), sc.Client.timeout(), call.Name, call.Err)
+			}
+		}
+		for _, tok := range order {
+			if m := msgs[tok]; !m.st.Delivered || m.st.HasErr {
+				out.violate("C03:fault-free-run-failed:message", "nothing was injected (server reply delay %v, client timeout %v), yet message %s has IsDelivered()=%v, HasSendError()=%v (%s)", time.Duration(sc.Server.ReplyDelayNs), sc.Client.timeout(), tok, m.st.Delivered, m.st.HasErr, m.st.ErrText)
+			}
+		}
+		if sc.Server.ReplyDelayNs > 0 {
+			out.stat("probe.slow-healthy-server", 1)
 		}
 	}
 	nf := 0
